@@ -13,7 +13,7 @@ CONSTANTS Keys,      \* key spellings
 VARIABLES m, ops, dead
 vars == <<m, ops, dead>>
 
-NoOp == [f |-> "none", k |-> "", v |-> 0, m2 |-> <<>>]
+NoOp == [f |-> "none", k |-> "", v |-> 0, m2 |-> <<>>, ks |-> <<>>]
 Op(f) == [NoOp EXCEPT !.f = f]
 
 (* another spelling of the same `==` class *)
@@ -22,6 +22,7 @@ Variant(tok) ==
     [] tok = "2" -> "2.0" [] tok = "2.0" -> "2"
     [] tok = "qa" -> "a" [] tok = "a" -> "sa" [] tok = "sa" -> "qa"
     [] tok = "qb" -> "b" [] tok = "b" -> "sb" [] tok = "sb" -> "qb"
+    [] tok = "1in" -> "96px" [] tok = "96px" -> "1in"
     [] tok = "red" -> "#f00" [] tok = "#f00" -> "#ff0000" [] tok = "#ff0000" -> "red"
     [] OTHER -> tok
 VariantMap(mm) == [p \in 1..Len(mm) |-> Entry(Variant(mm[p].k), mm[p].v)]
@@ -45,11 +46,30 @@ EqArgs(mm) ==
               [mm EXCEPT ![Len(mm)].v = 9],
               Reverse([mm EXCEPT ![1].v = 9])})
 
+(* key lists for map.remove with several keys, derived from the current   *)
+(* state: present keys in an order other than the map's own, respelled,   *)
+(* and mixed with a key that is (usually) absent                          *)
+KeysOf(mm) == [p \in 1..Len(mm) |-> mm[p].k]
+Absent == CHOOSE k \in Keys3 : TRUE
+RemoveAllArgs(mm) ==
+  LET ks == KeysOf(mm) n == Len(mm) IN
+  IF n = 0 THEN {<<Absent, Variant(Absent)>>}
+  ELSE {Reverse(ks), KeysOf(VariantMap(Reverse(mm))), <<ks[n], ks[1]>>, <<ks[n], Absent, ks[1]>>, <<Absent, ks[n], ks[1]>>,
+        <<ks[1], ks[n]>>}
+       \cup (IF n >= 3 THEN {<<ks[2], ks[3], ks[1]>>, <<ks[3], ks[1], ks[2]>>, <<ks[2], ks[1]>>, <<ks[3], ks[2]>>} ELSE {})
+
+Queries(mm) ==
+  {[Op(f) EXCEPT !.k = k] : f \in {"get", "has-key"}, k \in Keys}
+  \cup {[Op("eq") EXCEPT !.m2 = a] : a \in EqArgs(mm)}
+
 OpsAfter(mm) ==
   {[Op(f) EXCEPT !.k = k] : f \in {"get", "has-key", "remove"}, k \in Keys}
   \cup {[Op("set") EXCEPT !.k = k, !.v = 9] : k \in Keys}
   \cup {[Op("merge") EXCEPT !.m2 = a] : a \in MergeArgs}
   \cup {[Op("eq") EXCEPT !.m2 = a] : a \in EqArgs(mm)}
+  \cup {[Op("remove-all") EXCEPT !.ks = a] : a \in RemoveAllArgs(mm)}
+
+IsQuery(op) == op.f \in {"get", "has-key", "eq"}
 
 Init == m = <<>> /\ ops = <<>> /\ dead = FALSE
 
@@ -58,7 +78,7 @@ Do == /\ ~dead /\ Len(ops) < MaxOps
            LET s == Step(m, op, {}) IN
            /\ m' = s.m
            /\ ops' = Append(ops, op)
-           /\ dead' = (s.r.k = "err")
+           /\ dead' = (s.r.k = "err" \/ IsQuery(op))      \* a query ends the run (the state is unchanged)
 
 Next == Do
 Spec == Init /\ [][Next]_vars
@@ -72,13 +92,15 @@ InvKeysUnique == KeysUnique(m)
 InvLaws ==
   /\ \A k \in Keys : LawSet(m, k, 9) /\ LawRemove(m, k)
   /\ \A a \in MergeArgs : LawMerge(m, a)
+  /\ \A a \in RemoveAllArgs(m) : LawRemoveAll(m, a)
+  /\ \A k1 \in Keys3, k2 \in Keys : LawRemoveAll(m, <<k2, k1>>)
   /\ \A a \in EqArgs(m) : LawEq(m, a)
   /\ \A a \in EqArgs(m), b \in EqArgs(m) : (MapEq(m, a) /\ MapEq(a, b)) => MapEq(m, b)
   /\ \A k \in Keys : Step(MSet(m, k, 9), [Op("get") EXCEPT !.k = Variant(k)], {}).r = RNum(9)
   /\ \A k \in Keys : Step(MRemove(m, k), [Op("has-key") EXCEPT !.k = Variant(k)], {}).r = RBool(FALSE)
 
 (* the run recomputed from scratch ends in the machine's state *)
-InvRun == (~dead /\ ops # <<>>) => (LET t == Run(ops, {}) IN t[Len(t)].st = ObsState(m))
+InvRun == (ops # <<>> /\ (dead => IsQuery(ops[Len(ops)]))) => (LET t == Run(ops, {}) IN t[Len(t)].st = ObsState(m))
 
 (* for the invariant-only configuration: identify states by the map alone *)
 ViewM == <<m, dead>>
